@@ -27,7 +27,9 @@ ASSUMPTIONS = ['every variable exists at every emitted time and keeps one kind (
                'dictionary-valued variables are not generated (indistinguishable from branches); None-valued ones only in the query family (in a timeseries None cannot be told from absence)']
 
 FALSY = [0, False, '', [], 0.0]
-PLAIN = FALSY + [1, 7, -3, 2.5, -0.125, 'x', 'abc', True, [1, 2], [0], ['a', 'b'], 1e10]
+PLAIN = FALSY + [1, 7, -3, 2.5, -0.125, 'x', 'abc', True, [1, 2], [0], ['a', 'b'], 1e10,
+                 # sequences that start with a plain number and hold a quantity further on
+                 [1, {'__q__': 1.5, 'u': 'femtogram'}], [0, 2.5, {'__q__': 3, 'u': 'second'}]]
 UNITS = ['femtogram', 'millimolar', 'micrometer', 'second', 'nanometer']
 
 
@@ -167,6 +169,8 @@ def realise(row, units):
             out[k] = v['__q__'] * getattr(units, v['u'])
         elif isinstance(v, dict):
             out[k] = realise(v, units)
+        elif isinstance(v, list):
+            out[k] = [x['__q__'] * getattr(units, x['u']) if isinstance(x, dict) and '__q__' in x else copy.deepcopy(x) for x in v]
         else:
             out[k] = copy.deepcopy(v)
     return out
@@ -334,6 +338,12 @@ def same_raw(got, exp, units):
         g = got[p]
         if hasattr(v, 'units'):
             if not (isinstance(g, str) and g == '!units[%s]' % str(v)):
+                return False
+        elif isinstance(v, list) and any(hasattr(x, 'units') for x in v):
+            # a sequence holding quantities: element by element
+            if not (isinstance(g, list) and len(g) == len(v) and all(
+                    (isinstance(a, str) and a == '!units[%s]' % str(b)) if hasattr(b, 'units') else same(a, b)
+                    for a, b in zip(g, v))):
                 return False
         elif not same(g, v):
             return False
